@@ -36,7 +36,7 @@ func runC06(t *rapid.T) {
 	if err != nil {
 		t.Fatalf("mkdtemp: %v", err)
 	}
-	defer os.RemoveAll(dir)
+	defer evid.RetireDir(dir)
 	oldChunk := kv.MaxSnapshotChunkSize
 	kv.MaxSnapshotChunkSize = rapid.SampledFrom([]int64{1, 7, 100, 4096, 1 << 20}).Draw(t, "snapshotChunk")
 	defer func() { kv.MaxSnapshotChunkSize = oldChunk }()
